@@ -26,7 +26,7 @@ ASSUMPTIONS = ["hidden block sizes >= 1 (max_hidden_block_size >= 2; HiddenBlock
 TRUSTED = ["models: coq/theories/Net.v NetAlgebra.v NetOrder.v; check functions coq/theories/C13Check.v",
            "Python-side predicates and tree builders: harness/props/_netcommon.py"]
 THEORIES = ["Base", "Net", "NetAlgebra", "NetOrder", "NetProofs", "NetProofs2", "NetOrderProofs", "NetMLPProofs",
-            "C13Check"]
+            "C13Check", "NetForward", "NetForwardProofs", "NetForwardProofs2", "NetMLPProofs2"]
 
 IMPORTS = "From TF Require Import Base Net NetAlgebra NetOrder C13Check."
 NV = 3
